@@ -16,8 +16,8 @@ from mc.par import Result
 LEVEL = "exploration"
 
 IDS = {"A": 7, "B": 3, "C": 100}
-KINDS = ["0/0", "1/1", "0/1", "A0|1", "A1|0", "B0|1", "B1|0", "./.", "0/.", "i0/1", "iA0|1", "hA1|1"]
-KINDS_T = KINDS + ["C0|1", "iB1|0"]
+KINDS = ["0/0", "1/1", "0/1", "A0|1", "A1|0", "B0|1", "B1|0", "./.", "0/.", "i0/1", "iA0|1", "hA1|1", "mA1|0"]
+KINDS_T = KINDS + ["C0|1", "iB1|0", "m0/1"]
 IDS_ALL = True
 ADDITIVE = ["variants", "phased", "unphased", "singletons", "blocks", "variant_per_block_sum", "bp_per_block_sum", "heterozygous_variants", "heterozygous_snvs", "phased_snvs"]
 
@@ -31,10 +31,13 @@ def build(chroms, enc, second_sample=False):
         for i, k in enumerate(kinds):
             pos = 50 + 30 * i
             indel = k.startswith("i")
+            mnp = k.startswith("m")
             hom = k.startswith("h")
-            k2 = k[1:] if indel or hom else k
+            k2 = k[1:] if indel or hom or mnp else k
             if indel:
                 ref, alt = seq[pos], [seq[pos] + "GG"]
+            elif mnp:
+                ref, alt = seq[pos : pos + 2], [synth.other_base(seq[pos]) + synth.other_base(seq[pos + 1])]
             else:
                 ref, alt = seq[pos], [synth.other_base(seq[pos])]
             call = {}
@@ -70,7 +73,7 @@ def expected(chroms, only_snvs, selected):
         run = []
         for i, k in enumerate(kinds):
             pos = 50 + 30 * i
-            indel = k.startswith("i")
+            indel = k.startswith("i") or k.startswith("m")  # not an SNV
             hom = k.startswith("h")
             k2 = k[1:] if indel or hom else k
             if only_snvs and indel:
@@ -219,7 +222,7 @@ def space(tier):
             yield ([("chr1", list(seq))], "PS", False, None, False)
             if n <= (4 if T else 3):
                 yield ([("chr1", list(seq))], "HP", False, None, False)
-                if any(k.startswith("i") for k in seq):
+                if any(k[0] in "im" for k in seq):
                     yield ([("chr1", list(seq))], "PS", True, None, False)
     # three interleaved / nested phase sets over 6-9 (10) phased variants (splitting into non-overlapping pieces)
     for n in (6, 7, 8, 9) + ((10,) if T else ()):
